@@ -53,9 +53,9 @@ def required(tier):
     cl = [f'species:{s}' for s in ('prefix', 'gapped', 'per-field', 'full', 'single')]
     cl += [f'layout:{x}' for x in ('single', 'assoc1', 'assoc2', 'mapped', 'mem-save')]
     cl += ['phase:same-session-evicted', 'phase:reopen-read', 'phase:reopen-append',
-           'phase:after-sync', 'across:subset-later', 'across:uniform', 'phase:append-one-more',
+           'phase:after-sync', 'across:subset-later', 'across:uniform', 'across:any-of-union', 'phase:append-one-more',
            'field-set-order:shuffled', 'field-set:defined-again-in-another-field-order',
-           'trajectory:without-points']
+           'trajectory:without-points', 'combo:two-species-sets-in-two-files:cross-set-species']
     return {'classes': cl, 'counters': {'trajectories_compared': 300}, 'evaluations': 300}
 
 
@@ -93,13 +93,20 @@ def one_store(rng, workdir: Path, rec, k):
     if not extras and rng.random() < 0.8:
         extras = [rng.choice(['vx_species', 'vx_modes', 'vx_simple'])]
     shape = rng.choice(['prefix', 'gapped', 'per-field', 'full', 'single'])
-    across = rng.choice(['uniform', 'uniform', 'subset-later'])
+    across = rng.choice(['uniform', 'uniform', 'subset-later', 'any-of-union'])
     layouts = ['single', 'mem-save']
     if extras:
         layouts += ['assoc1', 'mapped']
     if len(extras) >= 2:
         layouts += ['assoc2']
     layout = rng.choice(layouts)
+    if 'vx_species' in extras and 'vx_modes' in extras and rng.random() < 0.5:
+        # two species-indexed field sets in two files, each field with its own species, and
+        # later trajectories using in one set a species the first one carried only in the other
+        layout, shape, across = 'assoc2', 'per-field', 'any-of-union'
+        extras = ['vx_species', 'vx_modes'] + [x for x in extras
+                                               if x not in ('vx_species', 'vx_modes')]
+        rec.cls('combo:two-species-sets-in-two-files:cross-set-species')
     ntraj = rng.randint(1, 5)
     d = workdir / f's{rng.getrandbits(40):x}'
     d.mkdir()
@@ -123,6 +130,10 @@ def one_store(rng, workdir: Path, rec, k):
                 ok = [sp for sp in v if sp in union0] or sorted(union0) or list(v)
                 if across == 'subset-later':
                     ok = sorted(rng.sample(ok, rng.randint(1, len(ok))))
+                elif across == 'any-of-union' and union0:
+                    # any species the first trajectory carried in SOME field set (the files'
+                    # species dimension is that union), also one this field did not carry
+                    ok = sorted(rng.sample(sorted(union0), rng.randint(1, len(union0))))
                 plan[f] = ok
         order = list(extras)
         if shuffle_order and j > 0:
@@ -222,6 +233,8 @@ def one_store(rng, workdir: Path, rec, k):
                     extras = [x for x in extras if x != 'vx_allopt'] + ['vx_allopt']
                 cut = rng.randint(1, len(extras) - 1) if 'vx_allopt' not in extras \
                     else len(extras) - 1
+                if extras[:2] == ['vx_species', 'vx_modes']:
+                    cut = 1
                 assoc_paths = [d / 'a1.nc', d / 'a2.nc']
                 kw['associated_files'] = [(assoc_paths[0], extras[:cut]),
                                           (assoc_paths[1], extras[cut:])]
